@@ -250,7 +250,9 @@ func MakeHole(ctx context.Context, listenConn *net.UDPConn, m *msg.NatHoleResp, 
 		lConn *net.UDPConn
 		raddr *net.UDPAddr
 	}
-	resultCh := make(chan result)
+	// buffered: a socket that is reached before this goroutine waits below must not lose its result
+	// (the peer has already been answered and believes the hole is made)
+	resultCh := make(chan result, 1)
 	for _, conn := range listenConns {
 		go func(lConn *net.UDPConn) {
 			addr, err := waitDetectMessage(ctx, lConn, m.Sid, key, timeout, m.DetectBehavior.Role)
